@@ -11,6 +11,7 @@ by whoever holds the baton, so no real-time race exists anywhere and one
 Nothing here draws randomness or reads a real clock.
 """
 import sys
+import math
 import types
 import importlib
 import hashlib
@@ -92,6 +93,9 @@ class Sim:
         # CPython reports an exhausted thread limit
         self.fail_thread_start = None
         self.nstarts = 0
+        # None: time.time() is the simulated clock itself (strictly
+        # increasing); a number: the clock is read in ticks of that size
+        self.clock_quantum = None
 
     # ------------------------------------------------------------------ util
     def label(self, obj, prefix):
@@ -1009,6 +1013,11 @@ def shims():
         if sim is None:
             return _rtime.time()
         sim.yield_point('time')
+        if sim.clock_quantum:
+            # a coarse wall clock (e.g. 15.6 ms ticks): time.time() is
+            # non-decreasing and two readings close together are equal
+            return math.floor(sim.clock / sim.clock_quantum) * \
+                sim.clock_quantum
         return sim.clock
     tm.time = time_
 
